@@ -17,12 +17,12 @@
    [U] C10_eff_is_file_membership, C10_eff_executable, C10_eff_unique, C10_filter_is_eff, C10_ser_visits,
        C10_projection_closed, C10_nothing_lost, C10_add_to_file, C10_create_file, C10_remove_from_file,
        C10_frame_transfer (every operation that never writes a file set)
-   [P] C10_inv_partial, C10_history_partial, C10_reachable_partial, C10_remove_file_partial (another file remains; exactness of the removed
-       set is checked by the oracle only), C10_self_contained (reduced to the XML layer)
+   [P] C10_inv_partial, C10_history_partial, C10_reachable_partial, C10_remove_file_partial + C10_remove_file_keeps (another file
+       remains; that every element of the removed file alone is deleted is checked by the oracle only), C10_self_contained (reduced to the XML layer)
    [F] C10_add_foreign_refuted, C10_root_last_refuted, C10_root_last_remove_file_refuted, C10_move_local_refuted
        (vm_compute on the tiny table set of Tree/Files.v). *)
 From AV Require Import Base.Bytes Base.Outcome Hash.HashModel Tree.Heap Tree.Ops Tree.Script Tree.Serialize Tree.Inv.
-From AV Require Import Tree.Files Tree.FilesProofsProj Tree.FilesProofsFrame Tree.FilesProofsAdd Tree.FilesProofsRemove
+From AV Require Import Tree.Files Tree.FilesProofsProj Tree.FilesProofsFrame Tree.FilesProofsAdd Tree.FilesProofsRemove Tree.FilesProofsExact
   Tree.FilesProofsInv Tree.FilesProofsHist Tree.FilesProofsTop.
 Open Scope list_scope.
 Open Scope N_scope.
@@ -98,6 +98,20 @@ Theorem C10_remove_file_partial :
   Known_root_last w (OpRemoveFile m f) = false -> Unowned w (OpRemoveFile m f) = false -> last_file w (OpRemoveFile m f) = false ->
   m_remove_file T m f w = Val (r, w') -> FilesInv T w'.
 Proof. exact remove_file_inv. Qed.
+
+(* ... and it leaves the content of every other file unchanged, as far as elements of other files are concerned: an
+   element that is attributed to some other file stays in the model and is attributed to exactly the same other files.
+   (The converse — no other file gains an element, i.e. every element attributed to the removed file alone is deleted —
+   fails in the model exactly when a deletion fails, see finding C10-shortname-own-file-set; it is checked on the
+   implementation by the oracle.) *)
+Theorem C10_remove_file_keeps :
+  forall (T : tables) (m f : N) (w : world) (r : out unit) (w' : world) (x : model),
+  TreeInv w -> FilesInv T w ->
+  Known_root_last w (OpRemoveFile m f) = false -> Unowned w (OpRemoveFile m f) = false -> last_file w (OpRemoveFile m f) = false ->
+  m_remove_file T m f w = Val (r, w') -> model_b w m = Some x ->
+  forall i g, Reach w (m_root x) i -> g <> f -> Attributed w i g ->
+    Reach w' (m_root x) i /\ forall h, h <> f -> (Attributed w i h <-> Attributed w' i h).
+Proof. exact remove_file_keeps. Qed.
 
 Theorem C10_inv_partial :
   forall (T : tables) (tab_el tab_en : nametab) (check_fn : N -> list N -> res bool) (LATEST : N)
